@@ -255,4 +255,426 @@ theorem sel_bounds (s : PySlice) (n : Int) (hn : 0 ≤ n) (hs : s.stp ≠ 0) :
 
 example : sel ⟨some (-2), none, some (-3)⟩ 10 = [8, 5, 2] := by decide
 
+/-! ### picking a range out of a range -/
+
+theorem filterMap_eq_map_of {α β} (f : α → Option β) (g : α → β) (l : List α)
+    (h : ∀ x ∈ l, f x = some (g x)) : l.filterMap f = l.map g := by
+  induction l with
+  | nil => rfl
+  | cons x xs ih =>
+    have hx := h x (List.mem_cons_self ..)
+    simp [hx, ih (fun y hy => h y (List.mem_cons_of_mem _ hy))]
+
+/-- `i < len(range(A, Aend, ac))` for integer `i ≥ 0`. -/
+theorem lt_rangeLen_pos_int (A Aend ac : Int) (hac : 0 < ac) (i : Int) (hi : 0 ≤ i) :
+    i < (rangeLen A Aend ac : Int) ↔ A + i * ac < Aend := by
+  have h := lt_rangeLen_pos A Aend ac hac i.toNat
+  rw [Int.toNat_of_nonneg hi] at h
+  omega
+
+theorem filterMap_rangeList (A Aend ac B Bend bc : Int)
+    (hin : ∀ j : Nat, j < rangeLen B Bend bc →
+      0 ≤ B + (j : Int) * bc ∧ B + (j : Int) * bc < (rangeLen A Aend ac : Int)) :
+    (rangeList B Bend bc).filterMap (fun i => (rangeList A Aend ac)[i.toNat]?) =
+      (List.range (rangeLen B Bend bc)).map (fun j : Nat => A + (B + (j : Int) * bc) * ac) := by
+  have e : rangeList B Bend bc =
+      (List.range (rangeLen B Bend bc)).map (fun (i : Nat) => B + (i : Int) * bc) := rfl
+  rw [e, List.filterMap_map]
+  apply filterMap_eq_map_of
+  intro j hj
+  have hj' := List.mem_range.mp hj
+  obtain ⟨h0, h1⟩ := hin j hj'
+  simp only [Function.comp]
+  rw [getElem?_rangeList]
+  have : (B + (j : Int) * bc).toNat < rangeLen A Aend ac := by omega
+  simp only [this, if_true, Int.toNat_of_nonneg h0]
+
+/-- Core of slice composition: a range picked out of a range is again a range. -/
+theorem compose_core (A Aend ac B Bend bc F Fend : Int)
+    (hB : 0 ≤ B) (hbc : 0 < bc) (hBend : Bend ≤ (rangeLen A Aend ac : Int))
+    (hcount : ∀ j : Nat, B + (j : Int) * bc < Bend ↔ F + (j : Int) * (ac * bc) < Fend)
+    (hacbc : 0 < ac * bc)
+    (hstart : B < Bend → F = A + B * ac) :
+    rangeList F Fend (ac * bc) =
+      (rangeList B Bend bc).filterMap (fun i => (rangeList A Aend ac)[i.toNat]?) := by
+  have hlen : rangeLen F Fend (ac * bc) = rangeLen B Bend bc := by
+    apply nat_eq_of_lt_iff
+    intro j
+    rw [lt_rangeLen_pos _ _ _ hacbc, lt_rangeLen_pos _ _ _ hbc]
+    exact (hcount j).symm
+  rw [filterMap_rangeList]
+  · conv => lhs; unfold rangeList
+    rw [hlen]
+    apply List.map_congr_left
+    intro j hj
+    have hj' := List.mem_range.mp hj
+    have h0 : B < Bend := by
+      have := (lt_rangeLen_pos B Bend bc hbc 0).mp (by omega)
+      simpa using this
+    rw [hstart h0]
+    simp only [Int.add_mul, Int.mul_assoc, Int.add_assoc, Int.mul_comm bc ac]
+  · intro j hj
+    have h1 := (lt_rangeLen_pos B Bend bc hbc j).mp hj
+    have h2 : 0 ≤ (j : Int) * bc := Int.mul_nonneg (Int.natCast_nonneg j) (Int.le_of_lt hbc)
+    omega
+
+theorem clamp_cases (v n : Int) (h0 : 0 ≤ v) :
+    (n < v ∧ adjust v n false = n) ∨ (v ≤ n ∧ adjust v n false = v) := by
+  rw [adjust_false_nonneg v n h0]; split <;> omega
+
+theorem length_sel (s : PySlice) (n : Int) :
+    ((sel s n).length : Int) = (rangeLen (s.istart n) (s.istop n) s.stp : Int) := by
+  unfold sel; rw [length_rangeList]
+
+/-! ### `_compose_slices` -/
+
+theorem composeSlices_eq (outer inner : PySlice) (n : Int) :
+    composeSlices outer inner n =
+      ⟨some (outer.istart n +
+          inner.istart (rangeLen (outer.istart n) (outer.istop n) outer.stp : Int) * outer.stp),
+        some (outer.istart n +
+          inner.istop (rangeLen (outer.istart n) (outer.istop n) outer.stp : Int) * outer.stp),
+        if outer.stp * inner.stp ≠ 1 then some (outer.stp * inner.stp) else none⟩ := by
+  unfold composeSlices
+  by_cases h : outer.stp ≠ 1 ∨ inner.stp ≠ 1
+  · simp only [h, if_true]
+  · have h1 : outer.stp = 1 := by omega
+    have h2 : inner.stp = 1 := by omega
+    simp [h1, h2]
+
+/-- _compose_slices for positive steps: the composed slice selects what outer-then-inner selects. -/
+theorem composeSlices_sel (outer inner : PySlice) (n : Int) (hn : 0 ≤ n)
+    (ho : 0 < outer.stp) (hi : 0 < inner.stp) :
+    sel (composeSlices outer inner n) n =
+      (sel inner ((sel outer n).length : Int)).filterMap (fun i => (sel outer n)[i.toNat]?) := by
+  rw [length_sel, composeSlices_eq]
+  have hacbc : 0 < outer.stp * inner.stp := Int.mul_pos ho hi
+  rw [sel_mk_pos _ _ _ n _ (stp_mk_ite' _ _ _) hacbc]
+  simp only [Option.map_some, Option.getD_some]
+  unfold sel
+  generalize hA : outer.istart n = A
+  generalize hAe : outer.istop n = Aend
+  generalize hac : outer.stp = ac at *
+  generalize hbc : inner.stp = bc at *
+  have hL0 : (0 : Int) ≤ (rangeLen A Aend ac : Int) := Int.natCast_nonneg _
+  have hBb := istart_pos_bounds inner _ hL0 (by omega)
+  have hBe := istop_pos_bounds inner _ hL0 (by omega)
+  have hAb := istart_pos_bounds outer n hn (by omega)
+  have hAeb := istop_pos_bounds outer n hn (by omega)
+  rw [hA] at hAb
+  rw [hAe] at hAeb
+  generalize hB : inner.istart (rangeLen A Aend ac : Int) = B at *
+  generalize hBend : inner.istop (rangeLen A Aend ac : Int) = Bend at *
+  have hP1 : 0 ≤ B * ac := Int.mul_nonneg hBb.1 (Int.le_of_lt ho)
+  have hP4 : 0 ≤ Bend * ac := Int.mul_nonneg hBe.1 (Int.le_of_lt ho)
+  have hF := clamp_cases (A + B * ac) n (by omega)
+  have hFe := clamp_cases (A + Bend * ac) n (by omega)
+  apply compose_core A Aend ac B Bend bc _ _ hBb.1 hi hBe.2 _ hacbc
+  · intro hlt
+    have hL := lt_rangeLen_pos_int A Aend ac ho B hBb.1
+    omega
+  · intro j
+    have hjbc : 0 ≤ (j : Int) * bc := Int.mul_nonneg (Int.natCast_nonneg j) (Int.le_of_lt hi)
+    have hP2 : 0 ≤ (j : Int) * (ac * bc) :=
+      Int.mul_nonneg (Int.natCast_nonneg j) (Int.le_of_lt hacbc)
+    have hP3 : (B + (j : Int) * bc) * ac = B * ac + (j : Int) * (ac * bc) := by
+      rw [Int.add_mul, Int.mul_assoc, Int.mul_comm bc ac]
+    have hcancel : B + (j : Int) * bc < Bend ↔ (B + (j : Int) * bc) * ac < Bend * ac :=
+      (Int.mul_lt_mul_right ho).symm
+    have hL := lt_rangeLen_pos_int A Aend ac ho (B + (j : Int) * bc) (by omega)
+    omega
+
+example : composeSlices ⟨some 1, some 20, some 3⟩ ⟨some 1, none, some 2⟩ 17 =
+      ⟨some 4, some 19, some 6⟩ ∧
+    sel ⟨some 4, some 19, some 6⟩ 17 = [4, 10, 16] ∧
+    (sel ⟨some 1, none, some 2⟩ ((sel ⟨some 1, some 20, some 3⟩ 17).length : Int)).filterMap
+      (fun i => (sel ⟨some 1, some 20, some 3⟩ 17)[i.toNat]?) = [4, 10, 16] := by decide
+
+/-- The positivity hypothesis on the outer step is needed: `x[::-1][:]` on an axis of length 3
+composes to `slice(2, -1, -1)`, which selects nothing. -/
+example : sel (composeSlices ⟨none, none, some (-1)⟩ ⟨none, none, none⟩ 3) 3 ≠
+    (sel ⟨none, none, none⟩ ((sel ⟨none, none, some (-1)⟩ 3).length : Int)).filterMap
+      (fun i => (sel ⟨none, none, some (-1)⟩ 3)[i.toNat]?) := by decide
+
+/-! ### `fuse_slice` -/
+
+/-- the `stop` computed by `fuse_slice` for two normalised slices. -/
+def fusedStop (a b : PySlice) : Option Int :=
+  match a.stop, b.stop with
+  | some x, some y => some (min x (a.start.getD 0 + a.stp * y))
+  | some x, none => some x
+  | none, some y => some (a.start.getD 0 + a.stp * y)
+  | none, none => none
+
+theorem fuseSliceSlice_eq (a b : PySlice) : fuseSliceSlice a b =
+    if (a.start.getD 0 < 0 ∨ a.stp < 0 ∨ a.stop.getD 0 < 0) ∨
+       (b.start.getD 0 < 0 ∨ b.stp < 0 ∨ b.stop.getD 0 < 0) then .error .notImplemented
+    else .ok ⟨some (a.start.getD 0 + a.stp * b.start.getD 0), fusedStop a b,
+      if a.stp * b.stp = 1 then none else some (a.stp * b.stp)⟩ := by
+  unfold fuseSliceSlice normalizeForFusion fusedStop stp
+  by_cases ha : (a.start.getD 0 < 0 ∨ a.step.getD 1 < 0 ∨ a.stop.getD 0 < 0)
+  · simp [ha, bind, Except.bind]
+  · by_cases hb : (b.start.getD 0 < 0 ∨ b.step.getD 1 < 0 ∨ b.stop.getD 0 < 0)
+    · simp [ha, hb, bind, Except.bind]
+    · simp only [ha, hb, bind, Except.bind, if_false, pure, Except.pure, or_self]
+      cases a.stop <;> cases b.stop <;> simp
+
+/-- fuse_slice refuses (NotImplementedError) exactly when some start/stop/step is negative -/
+theorem fuseSliceSlice_error_iff (a b : PySlice) :
+    (∃ f, fuseSliceSlice a b = .ok f) ↔
+      (0 ≤ a.start.getD 0 ∧ 0 ≤ a.step.getD 1 ∧ 0 ≤ a.stop.getD 0 ∧
+       0 ≤ b.start.getD 0 ∧ 0 ≤ b.step.getD 1 ∧ 0 ≤ b.stop.getD 0) := by
+  rw [fuseSliceSlice_eq]
+  unfold stp
+  split
+  · rename_i h
+    constructor
+    · rintro ⟨f, hf⟩; cases hf
+    · intro h'; omega
+  · rename_i h
+    constructor
+    · intro _; omega
+    · intro _; exact ⟨_, rfl⟩
+
+example : (∃ f, fuseSliceSlice ⟨some 1, some 20, some 2⟩ ⟨some 1, none, some 3⟩ = .ok f) ∧
+    fuseSliceSlice ⟨some 1, some 20, some 2⟩ ⟨some (-1), none, none⟩ = .error .notImplemented := by
+  exact ⟨(fuseSliceSlice_error_iff _ _).mpr (by decide), rfl⟩
+
+theorem sel_stp_zero (s : PySlice) (n : Int) (h : s.stp = 0) : sel s n = [] := by
+  unfold sel rangeList
+  rw [h, rangeLen_step_zero]; rfl
+
+theorem filterMap_getElem?_nil (l : List Int) :
+    l.filterMap (fun i => ([] : List Int)[i.toNat]?) = [] := by
+  induction l with
+  | nil => rfl
+  | cons x xs ih => simp
+
+theorem istart_eq_of_pos (s : PySlice) (n : Int) (hn : 0 ≤ n) (hc : 0 < s.stp) :
+    s.istart n = adjust (s.start.getD 0) n false := by
+  have h : ¬ s.stp < 0 := by omega
+  unfold istart
+  cases s.start with
+  | none => simp [h, adjust_false_id 0 n (Int.le_refl 0) hn]
+  | some v => simp [h]
+
+/-- the end of a range is reached after `len` steps. -/
+theorem end_le (n a0 ac x : Int) (hac : 0 < ac) (ha0 : 0 ≤ a0) :
+    adjust x n false ≤
+      a0 + ac * (rangeLen (adjust a0 n false) (adjust x n false) ac : Int) := by
+  have hL := lt_rangeLen_pos_int (adjust a0 n false) (adjust x n false) ac hac
+    (rangeLen (adjust a0 n false) (adjust x n false) ac : Int) (Int.natCast_nonneg _)
+  have hA := clamp_cases a0 n ha0
+  rw [Int.mul_comm ac]
+  omega
+
+/-- numeric core of `fuse_slice` with both stops explicit. -/
+theorem fuse_core (n a0 ac b0 bc x y : Int) (ha0 : 0 ≤ a0) (hb0 : 0 ≤ b0)
+    (hac : 0 < ac) (hbc : 0 < bc) (hx : 0 ≤ x) (hy : 0 ≤ y) :
+    rangeList (adjust (a0 + ac * b0) n false) (adjust (min x (a0 + ac * y)) n false) (ac * bc) =
+      (rangeList
+          (adjust b0 (rangeLen (adjust a0 n false) (adjust x n false) ac : Int) false)
+          (adjust y (rangeLen (adjust a0 n false) (adjust x n false) ac : Int) false) bc).filterMap
+        (fun i => (rangeList (adjust a0 n false) (adjust x n false) ac)[i.toNat]?) := by
+  have hp : 0 ≤ b0 * ac := Int.mul_nonneg hb0 (Int.le_of_lt hac)
+  have hq : 0 ≤ y * ac := Int.mul_nonneg hy (Int.le_of_lt hac)
+  have hcomm1 : ac * b0 = b0 * ac := Int.mul_comm _ _
+  have hcomm2 : ac * y = y * ac := Int.mul_comm _ _
+  have hacbc : 0 < ac * bc := Int.mul_pos hac hbc
+  have hA := clamp_cases a0 n ha0
+  have hAe := clamp_cases x n hx
+  have hF := clamp_cases (a0 + ac * b0) n (by omega)
+  have hFe := clamp_cases (min x (a0 + ac * y)) n (by omega)
+  generalize adjust a0 n false = A at *
+  generalize adjust x n false = Aend at *
+  generalize adjust (a0 + ac * b0) n false = F at *
+  generalize adjust (min x (a0 + ac * y)) n false = Fend at *
+  have hL0 : (0 : Int) ≤ (rangeLen A Aend ac : Int) := Int.natCast_nonneg _
+  have hLb0 := lt_rangeLen_pos_int A Aend ac hac b0 hb0
+  have hLi := fun (i : Int) (hi : 0 ≤ i) => lt_rangeLen_pos_int A Aend ac hac i hi
+  have hB := clamp_cases b0 (rangeLen A Aend ac : Int) hb0
+  have hBe := clamp_cases y (rangeLen A Aend ac : Int) hy
+  generalize adjust b0 (rangeLen A Aend ac : Int) false = B at *
+  generalize adjust y (rangeLen A Aend ac : Int) false = Bend at *
+  generalize hLdef : (rangeLen A Aend ac : Int) = L at *
+  apply compose_core A Aend ac B Bend bc F Fend (by omega) hbc (by omega) _ hacbc
+  · intro hlt
+    have hBb0 : B = b0 := by omega
+    subst hBb0
+    omega
+  · intro j
+    have hjbc : 0 ≤ (j : Int) * bc := Int.mul_nonneg (Int.natCast_nonneg j) (Int.le_of_lt hbc)
+    have hP2 : 0 ≤ (j : Int) * (ac * bc) :=
+      Int.mul_nonneg (Int.natCast_nonneg j) (Int.le_of_lt hacbc)
+    have hP3 : (b0 + (j : Int) * bc) * ac = b0 * ac + (j : Int) * (ac * bc) := by
+      rw [Int.add_mul, Int.mul_assoc, Int.mul_comm bc ac]
+    have hcancel : b0 + (j : Int) * bc < y ↔ (b0 + (j : Int) * bc) * ac < y * ac :=
+      (Int.mul_lt_mul_right hac).symm
+    have hLi' := hLi (b0 + (j : Int) * bc) (by omega)
+    omega
+
+/-- fuse_slice(a, b) on two slices selects what applying a then b selects.
+`pick l i` = l[i] for the positions i chosen by b inside the intermediate result. -/
+theorem fuseSliceSlice_sel (a b f : PySlice) (n : Int) (hn : 0 ≤ n)
+    (h : fuseSliceSlice a b = .ok f) :
+    sel f n = (sel b ((sel a n).length : Int)).filterMap (fun i => (sel a n)[i.toNat]?) := by
+  rw [fuseSliceSlice_eq] at h
+  split at h
+  · cases h
+  · rename_i hneg
+    injection h with h
+    subst h
+    have ha0 : 0 ≤ a.start.getD 0 := by omega
+    have hb0 : 0 ≤ b.start.getD 0 := by omega
+    have hx : 0 ≤ a.stop.getD 0 := by omega
+    have hy : 0 ≤ b.stop.getD 0 := by omega
+    by_cases hac0 : a.stp = 0
+    · rw [sel_stp_zero a n hac0, filterMap_getElem?_nil]
+      apply sel_stp_zero
+      rw [stp_mk_ite, hac0, Int.zero_mul]
+    by_cases hbc0 : b.stp = 0
+    · rw [sel_stp_zero b _ hbc0]
+      apply sel_stp_zero
+      rw [stp_mk_ite, hbc0, Int.mul_zero]
+    have hac : 0 < a.stp := by omega
+    have hbc : 0 < b.stp := by omega
+    have hacbc : 0 < a.stp * b.stp := Int.mul_pos hac hbc
+    rw [length_sel, sel_mk_pos _ _ _ n _ (stp_mk_ite _ _ _) hacbc]
+    simp only [Option.map_some, Option.getD_some]
+    have hL0 : (0 : Int) ≤ (rangeLen (a.istart n) (a.istop n) a.stp : Int) :=
+      Int.natCast_nonneg _
+    have hnb : ¬ b.stp < 0 := by omega
+    have hna : ¬ a.stp < 0 := by omega
+    unfold sel
+    rw [istart_eq_of_pos b _ hL0 hbc]
+    rw [istart_eq_of_pos a n hn hac]
+    unfold fusedStop istop
+    have e1 : adjust n n false = n := adjust_false_id n n hn (Int.le_refl n)
+    cases hsa : a.stop with
+    | none =>
+      cases hsb : b.stop with
+      | none =>
+        simp only [hna, hnb, if_false, Option.map_none, Option.getD_none]
+        have hend := end_le n (a.start.getD 0) a.stp n hac ha0
+        have key := fuse_core n (a.start.getD 0) a.stp (b.start.getD 0) b.stp n
+          (rangeLen (adjust (a.start.getD 0) n false) n a.stp : Int)
+          ha0 hb0 hac hbc hn (Int.natCast_nonneg _)
+        rw [e1] at hend key
+        have hL0' : (0 : Int) ≤ (rangeLen (adjust (a.start.getD 0) n false) n a.stp : Int) :=
+          Int.natCast_nonneg _
+        generalize (rangeLen (adjust (a.start.getD 0) n false) n a.stp : Int) = L at *
+        have e2 : adjust L L false = L := adjust_false_id L L hL0' (Int.le_refl L)
+        have e3 : adjust (min n (a.start.getD 0 + a.stp * L)) n false = n := by
+          have := clamp_cases (min n (a.start.getD 0 + a.stp * L)) n (by omega)
+          omega
+        rw [e2, e3] at key
+        exact key
+      | some y =>
+        simp only [hsb, Option.getD_some] at hy
+        simp only [hna, hnb, decide_false, if_false, Option.map_some, Option.getD_some]
+        have key := fuse_core n (a.start.getD 0) a.stp (b.start.getD 0) b.stp n y
+          ha0 hb0 hac hbc hn hy
+        rw [e1] at key
+        have hq : 0 ≤ a.stp * y := Int.mul_nonneg (Int.le_of_lt hac) hy
+        have e3 : adjust (min n (a.start.getD 0 + a.stp * y)) n false =
+            adjust (a.start.getD 0 + a.stp * y) n false := by
+          have h1 := clamp_cases (min n (a.start.getD 0 + a.stp * y)) n (by omega)
+          have h2 := clamp_cases (a.start.getD 0 + a.stp * y) n (by omega)
+          omega
+        rw [e3] at key
+        exact key
+    | some x =>
+      simp only [hsa, Option.getD_some] at hx
+      cases hsb : b.stop with
+      | none =>
+        simp only [hna, hnb, decide_false, if_false, Option.map_some, Option.getD_some]
+        have hend := end_le n (a.start.getD 0) a.stp x hac ha0
+        have key := fuse_core n (a.start.getD 0) a.stp (b.start.getD 0) b.stp x
+          (rangeLen (adjust (a.start.getD 0) n false) (adjust x n false) a.stp : Int)
+          ha0 hb0 hac hbc hx (Int.natCast_nonneg _)
+        have hL0' : (0 : Int) ≤
+            (rangeLen (adjust (a.start.getD 0) n false) (adjust x n false) a.stp : Int) :=
+          Int.natCast_nonneg _
+        generalize
+          (rangeLen (adjust (a.start.getD 0) n false) (adjust x n false) a.stp : Int) = L at *
+        have e2 : adjust L L false = L := adjust_false_id L L hL0' (Int.le_refl L)
+        have e3 : adjust (min x (a.start.getD 0 + a.stp * L)) n false = adjust x n false := by
+          have h0 := adjust_false_bounds x n hn
+          have h1 := clamp_cases (min x (a.start.getD 0 + a.stp * L)) n (by omega)
+          have h2 := clamp_cases x n hx
+          omega
+        rw [e2, e3] at key
+        exact key
+      | some y =>
+        simp only [hsb, Option.getD_some] at hy
+        simp only [hna, hnb, decide_false, Option.map_some, Option.getD_some]
+        exact fuse_core n _ _ _ _ x y ha0 hb0 hac hbc hx hy
+
+example : fuseSliceSlice ⟨some 1, some 20, some 2⟩ ⟨some 1, none, some 3⟩ =
+      .ok ⟨some 3, some 20, some 6⟩ ∧
+    sel ⟨some 3, some 20, some 6⟩ 17 = [3, 9, 15] ∧
+    (sel ⟨some 1, none, some 3⟩ ((sel ⟨some 1, some 20, some 2⟩ 17).length : Int)).filterMap
+      (fun i => (sel ⟨some 1, some 20, some 2⟩ 17)[i.toNat]?) = [3, 9, 15] :=
+  ⟨rfl, by decide, by decide⟩
+
+theorem fuseSliceInt_eq (a : PySlice) (b : Int) : fuseSliceInt a b =
+    if (a.start.getD 0 < 0 ∨ a.stp < 0 ∨ a.stop.getD 0 < 0) ∨ b < 0 then .error .notImplemented
+    else .ok (a.start.getD 0 + b * a.stp) := by
+  unfold fuseSliceInt normalizeForFusion stp
+  by_cases ha : (a.start.getD 0 < 0 ∨ a.step.getD 1 < 0 ∨ a.stop.getD 0 < 0)
+  · simp [ha, bind, Except.bind]
+  · by_cases hb : b < 0
+    · simp [ha, hb, bind, Except.bind]
+    · simp [ha, hb, bind, Except.bind, pure, Except.pure]
+
+/-- fuse_slice(a, b) for an integer b that is in range of the intermediate result (the bound that
+normalize_index enforces before fusion is reachable). -/
+theorem fuseSliceInt_sel (a : PySlice) (b r : Int) (n : Int) (hn : 0 ≤ n)
+    (h : fuseSliceInt a b = .ok r) (hb : b < ((sel a n).length : Int)) :
+    (sel a n)[b.toNat]? = some r := by
+  rw [fuseSliceInt_eq] at h
+  split at h
+  · cases h
+  · rename_i hneg
+    injection h with h
+    subst h
+    have ha0 : 0 ≤ a.start.getD 0 := by omega
+    have hb0 : 0 ≤ b := by omega
+    rw [length_sel] at hb
+    have hac : 0 < a.stp := by
+      rcases Int.lt_trichotomy a.stp 0 with hc | hc | hc
+      · omega
+      · rw [hc, rangeLen_step_zero] at hb; omega
+      · exact hc
+    have hA := istart_eq_of_pos a n hn hac
+    have hAe := istop_pos_bounds a n hn hac
+    have hcl := clamp_cases (a.start.getD 0) n ha0
+    have h0 := lt_rangeLen_pos_int (a.istart n) (a.istop n) a.stp hac 0 (Int.le_refl 0)
+    have hAeq : a.istart n = a.start.getD 0 := by omega
+    unfold sel
+    rw [getElem?_rangeList]
+    have hlt : b.toNat < rangeLen (a.istart n) (a.istop n) a.stp := by omega
+    rw [if_pos hlt, Int.toNat_of_nonneg hb0, hAeq]
+
+example : fuseSliceInt ⟨some 1, some 20, some 2⟩ 3 = .ok 7 ∧
+    (3 : Int) < ((sel ⟨some 1, some 20, some 2⟩ 17).length : Int) ∧
+    (sel ⟨some 1, some 20, some 2⟩ 17)[(3 : Int).toNat]? = some 7 := ⟨rfl, by decide, by decide⟩
+
+/-! ### the hypotheses of the main theorems are jointly satisfiable on concrete inputs -/
+
+example : sel (normalizeSlice ⟨some (-7), some 100, some 2⟩ 10) 10 =
+    sel ⟨some (-7), some 100, some 2⟩ 10 :=
+  sel_normalizeSlice ⟨some (-7), some 100, some 2⟩ 10 (by decide) (by decide)
+
+example : ∀ p ∈ sel ⟨some (-2), none, some (-3)⟩ 10, 0 ≤ p ∧ p < 10 :=
+  sel_bounds ⟨some (-2), none, some (-3)⟩ 10 (by decide) (by decide)
+
+example := fuseSliceSlice_sel ⟨some 1, some 20, some 2⟩ ⟨some 1, none, some 3⟩
+  ⟨some 3, some 20, some 6⟩ 17 (by decide) rfl
+
+example := fuseSliceInt_sel ⟨some 1, some 20, some 2⟩ 3 7 17 (by decide) rfl (by decide)
+
+example := composeSlices_sel ⟨some 1, some 20, some 3⟩ ⟨some 1, none, some 2⟩ 17
+  (by decide) (by decide) (by decide)
+
 end Dask.Lemmas.SliceAlgebra
